@@ -30,7 +30,10 @@ def lengths_for(w):
     return sorted(s)
 
 
-def run_batch(exe, env, lines, per_case_timeout=150, watchdog=None, max_fail=None):
+RETRIED = []      # cases that hit the watchdog once and were re-run alone (reported in the evidence, never silent)
+
+
+def run_batch(exe, env, lines, per_case_timeout=1800, watchdog=None, max_fail=None, retry=True):
     """run the harness over `lines`; a crash or watchdog ends the process: the case at that position gets
     'CRASH rc'/'TIMEOUT' and the rest is run in a fresh process.  returns (header, [result line per input line])"""
     results = []
@@ -59,9 +62,16 @@ def run_batch(exe, env, lines, per_case_timeout=150, watchdog=None, max_fail=Non
             done += 1
         pos += done
         if pos < len(lines) and done < len(chunk):
-            results.append("TIMEOUT" if (body and body[-1] == "TIMEOUT") or rc == -9 else "CRASH rc=%s" % rc)
+            res = "TIMEOUT" if (body and body[-1] == "TIMEOUT") or rc == -9 else "CRASH rc=%s" % rc
+            if res == "TIMEOUT" and retry:
+                # judge a watchdog expiry only after the case has been re-run alone (fresh process, same CPU-time budget)
+                _, again = run_batch(exe, env, [lines[pos]], per_case_timeout=per_case_timeout, watchdog=watchdog, retry=False)
+                RETRIED.append({"command": lines[pos], "first": "TIMEOUT", "alone": again[0][:60]})
+                res = again[0]
+            results.append(res)
             pos += 1
-            nfail += 1
+            if res.startswith(("TIMEOUT", "CRASH")):
+                nfail += 1
     while len(results) < len(lines):
         results.append("SKIPPED" if max_fail is not None and nfail >= max_fail else "CRASH not-run")
     return header, results
@@ -259,7 +269,9 @@ def run(ctx):
     hangs_seen = []          # known-class cases where model (OutOfFuel) and implementation (watchdog) agree
 
     for ci, (ns, nw) in enumerate(configs):
-        env = core.qenv(ns, nw, stack=65536)
+        # QT_AFFINITY=0: with the default binding qthreads pins all workers of a shepherd to ONE cpu on this machine's
+        # topology; its busy-waiting scheduler then makes the same call take anything from 0.05 s to minutes
+        env = core.qenv(ns, nw, stack=65536, QT_AFFINITY=0)
         w = ns * nw
         # ------------------------------------------------------------ reductions
         reds = [tuple(c) for c in corpus.get("red", [])] + red_cases(rng.fork(), w, quick) + (qreds if ci < (2 if quick else 99) or ci == 3 else qreds[::7])
@@ -327,7 +339,7 @@ def run(ctx):
             if mo == "s outoffuel":      # a generated "safe" case the model says diverges: treat like the risky ones
                 risky.append(c)
         t0 = time.time()
-        header, iout = run_batch(exe, env, ["sort %s %d %d %d 60" % c for c, _ in term], max_fail=1)
+        header, iout = run_batch(exe, env, ["sort %s %d %d %d 30" % c for c, _ in term], max_fail=1)
         tick("impl:sort", t0)
         for (c, mo), io in zip(term, iout):
             evals += 1
@@ -418,7 +430,10 @@ def run(ctx):
                 ctx.notes.append("allpairs event log overflow on %s" % (c,))
     # ---------------------------------------------------------------- verdict
     prof["total_before_verdict"] = round(time.time() - ctx.t0, 1)
-    ctx.cov.update(phase_seconds=prof, evaluations=evals, distinct_nontrivial=len(nontrivial), samples=samples,
+    if RETRIED:
+        ctx.notes.append("watchdog expiries re-run alone: %s" % json.dumps(RETRIED[:10]))
+    ctx.cov.update(watchdog_policy="CPU-time (ITIMER_PROF, 30-60 CPU-s per worker) + re-run alone before judging; QT_AFFINITY=0",
+                   watchdog_retries=len(RETRIED), phase_seconds=prof, evaluations=evals, distinct_nontrivial=len(nontrivial), samples=samples,
                    rule="non-trivial = reduction with >= 2 worker partials or >= 2 qutil chunks; quicksort above the parallel cutoff; "
                         "allpairs with >= 2 work units.  lengths {1,2,3,w-1,w,w+1,9,10,11,9999,10000,10001,20001,20002,40001,...} x patterns "
                         "(random, sorted, reversed, constant, two values, extremes, 16 values) x types (aligned_t, saligned_t, double) x operators",
@@ -462,7 +477,7 @@ def replay(ctx, path):
     if cmd:
         exe = ctx.link("c13_util", ["c13_util.c"], exclude=["patterns/allpairs.c"])
         ns, nw = case.get("config", [2, 2])
-        _, out = run_batch(exe, core.qenv(ns, nw, stack=65536), [cmd])
+        _, out = run_batch(exe, core.qenv(ns, nw, stack=65536, QT_AFFINITY=0), [cmd])
         print("# re-run on the working tree (%dx%d): %s -> %s" % (ns, nw, cmd, out[0][:300]))
         bad = out[0].startswith(("TIMEOUT", "CRASH")) or (out[0].startswith("r ") and not out[0].endswith("ok 1")) or \
             (out[0].startswith("s ") and out[0].split()[3:5] != ["1", "1"]) or (out[0].startswith("a ") and (" bad=0 " not in out[0] or " active=0 " not in out[0]))
